@@ -246,6 +246,18 @@ func run(toks []string) string {
 		if err != nil {
 			return "status=400"
 		}
+		// the muxer has served other requests before: the same path under every other method that has a route
+		// (what a request resolves to must not depend on the requests served earlier)
+		seenM := map[string]bool{method: true}
+		for j := 0; j < k; j++ {
+			if om := toks[3+3*j]; !seenM[om] {
+				seenM[om] = true
+				if wreq, err := readRequest(om, raw); err == nil {
+					m.ServeHTTP(httptest.NewRecorder(), wreq)
+				}
+			}
+		}
+		hit, mwPattern, hitAny = "", "", false
 		rec := httptest.NewRecorder()
 		m.ServeHTTP(rec, req)
 		if hitAny {
@@ -276,9 +288,9 @@ func run(toks []string) string {
 				case strings.HasPrefix(ct, "application/json"):
 					okBody = json.Unmarshal(rec2.Body.Bytes(), &er2) == nil && er2.Name != "" && er2.Fault
 				case strings.HasPrefix(ct, "application/xml"):
-					okBody = xml.Unmarshal(rec2.Body.Bytes(), &er2) == nil && er2.Name != ""
+					okBody = xml.Unmarshal(rec2.Body.Bytes(), &er2) == nil && er2.Name != "" && er2.Fault
 				case strings.HasPrefix(ct, "application/gob"):
-					okBody = gob.NewDecoder(bytes.NewReader(rec2.Body.Bytes())).Decode(&er2) == nil && er2.Name != ""
+					okBody = gob.NewDecoder(bytes.NewReader(rec2.Body.Bytes())).Decode(&er2) == nil && er2.Name != "" && er2.Fault
 				}
 				if rec2.Code != http.StatusNotFound || !okBody {
 					body = "bad-with-accept:" + lp.Enc(accept)
